@@ -54,6 +54,20 @@ func genGoMap(r *core.Rand, i int) (map[string]string, string) {
 		class = "255-byte-strings"
 		g[string(r.Bytes(255))] = string(r.Bytes(255))
 		n = r.Pick(3)
+		if r.Chance(1, 2) {
+			// keys at and just below the limit with short values, alone or last in sort order
+			class = "longest-keys-short-values"
+			g = map[string]string{}
+			kl := 253 + r.Pick(3)
+			k := r.Bytes(kl)
+			if r.Chance(1, 2) {
+				k[0] = 0xff // sorts last
+			}
+			g[string(k)] = string(r.Bytes(r.Pick(3)))
+			if r.Chance(1, 2) {
+				g[string(utf8OfLen(r, 253+r.Pick(3)))] = string(utf8OfLen(r, r.Pick(256)))
+			}
+		}
 	case 3:
 		class = "delimiters-in-strings"
 		g["a=b"] = "c;d"
@@ -144,10 +158,17 @@ func runC11(c *core.Ctx) {
 	c.Job("oversize-strings", c.N(200, 2000), func(i int, r *core.Rand) {
 		g, _ := genGoMap(r, 11)
 		ln := 256 + r.Pick(600)
+		if i%8 < 2 {
+			ln = 256 + r.Pick(3)
+		}
+		over := r.Bytes(ln)
+		if (i/2)%2 == 1 {
+			over = utf8OfLen(r, ln) // fewer than 256 characters, more than 255 bytes
+		}
 		if i%2 == 0 {
-			g[string(r.Bytes(ln))] = "v"
+			g[string(over)] = "v"
 		} else {
-			g["k"] = string(r.Bytes(ln))
+			g["k"] = string(over)
 		}
 		c.Eval(1)
 		m, err := data.GoMapToMapping(g)
@@ -294,9 +315,15 @@ func c11Map(c *core.Ctx, g map[string]string, class string, r *core.Rand) {
 		c.Violate("data.ValuesToMapping", "not-canonical-sorted-encoding", sh, head(d, 200), fmt.Sprint(err))
 		return
 	}
-	// calling Data() twice gives the same bytes (no hidden mutation)
+	// calling Data() twice gives the same bytes (no hidden mutation), also after the caller has
+	// overwritten the bytes it was handed the first time
+	first := m.Data()
+	for j := range first {
+		first[j] ^= 0x5A
+	}
 	if !bytes.Equal(m.Data(), d) {
-		c.Violate("data.Mapping.Data", "second-call-differs", sh, head(d, 200), "")
+		c.Violate("data.Mapping.Data", "second-call-differs", sh, head(d, 200), "Data() after the caller overwrote the previous result")
+		return
 	}
 	// parse back without ANY error, to the same map, re-serialising identically
 	p, rem, errs := data.ReadMapping(d)
